@@ -5,9 +5,10 @@ Line-protocol dispatch: model ops and oracle ops. Core Lean only (compiled into 
 Each property contributes a module `SafeHtml.Ops.Cxx` with `model` and `oracle`; register it below.
 -/
 import SafeHtml.Ops.C18
-import SafeHtml.Ops.Tmpl
+import SafeHtml.Ops.Hist
 import SafeHtml.Ops.C20
 import SafeHtml.Ops.C17
+import SafeHtml.Ops.C04
 import SafeHtml.Ops.C11
 import SafeHtml.Ops.C10
 import SafeHtml.Ops.C19
@@ -20,10 +21,10 @@ namespace SafeHtml.Driver
 open SafeHtml
 
 def models : List (String → List Bytes → Option String) :=
-  [Ops.C18.model, Ops.Tmpl.model, Ops.C17.model, Ops.C20.model, Ops.C12.model, Ops.C13.model, Ops.C14.model, Ops.C15.model, Ops.C16.model, Ops.C19.model, Ops.C10.model, Ops.C11.model]
+  [Ops.C18.model, Ops.Hist.model, Ops.C17.model, Ops.C20.model, Ops.C12.model, Ops.C13.model, Ops.C14.model, Ops.C15.model, Ops.C16.model, Ops.C19.model, Ops.C10.model, Ops.C11.model, Ops.C04.model]
 
 def oracles : List (String → List Bytes → List String → Option String) :=
-  [Ops.C18.oracle, Ops.Tmpl.oracle, Ops.C17.oracle, Ops.C20.oracle, Ops.C12.oracle, Ops.C13.oracle, Ops.C14.oracle, Ops.C15.oracle, Ops.C16.oracle, Ops.C19.oracle, Ops.C10.oracle, Ops.C11.oracle]
+  [Ops.C18.oracle, Ops.Hist.oracle, Ops.C17.oracle, Ops.C20.oracle, Ops.C12.oracle, Ops.C13.oracle, Ops.C14.oracle, Ops.C15.oracle, Ops.C16.oracle, Ops.C19.oracle, Ops.C10.oracle, Ops.C11.oracle, Ops.C04.oracle]
 
 def runModel (op : String) (a : List Bytes) : String :=
   match models.findSome? (fun f => f op a) with
